@@ -49,7 +49,7 @@ def c09_jobs(tier):
         # monitor 1
         job('diff-plain-t1-16', 'c09d', 'plain', threads=8, shards=2 if q else 8, timeout=T, args=['--sub', 'diff', '--threads=1,2,3,4,5,8,16']),
         job('diff-omp-t1-32', 'c09d', 'plain-omp', threads=32, exclusive=True, shards=1 if q else 2, timeout=T,
-            args=['--sub', 'diff', '--threads=1,2,4,8,16,17,24,32', '--inputs=%d' % (6 if q else 40), '--nhi=%d' % (1500 if q else 3000)]),
+            args=['--sub', 'diff', '--threads=1,2,4,8,16,17,24,32', '--inputs=%d' % (6 if q else 24), '--nhi=%d' % (1500 if q else 3000)]),
         # monitor 5 on the bitwise-class computations
         job('repeat-plain', 'c09d', 'plain', threads=8, timeout=T, args=['--sub', 'repeat', '--rthreads=4,8']),
         job('repeat-omp-t17', 'c09d', 'plain-omp', threads=17, exclusive=True, timeout=T, args=['--sub', 'repeat', '--rthreads=17', '--inputs=%d' % (2 if q else 10), '--reps=%d' % (10 if q else 20)]),
